@@ -1189,6 +1189,14 @@ func (p *BinaryProtocol) ReadBaseTypeWithDesc(desc *proto.TypeDescriptor, hasMes
 		}
 		// read repeat until sumLength equals MessageLength
 		start := p.Read
+		if start+messageLength > len(p.Buf) {
+			return nil, errInvalidDataSize
+		}
+		// nested readers (unpacked lists, maps) scan until the end of the buffer:
+		// bound them by the end of this message, so that they can't consume the fields of the enclosing message
+		whole := p.Buf
+		p.Buf = whole[:start+messageLength]
+		defer func() { p.Buf = whole }()
 		for p.Read < start+messageLength {
 			fieldNumber, wireType, tagLen, fieldTagErr := p.ConsumeTagWithoutMove()
 			if fieldTagErr != nil {
